@@ -26,6 +26,7 @@ CONSTANTS
   PostMayFail = TRUE
   StopHooksMayFail = FALSE
   DrainOnClose = FALSE
+  ReportBeforeRelease = FALSE
 SPECIFICATION FairSpec
-INVARIANTS TypeOK SerialFifo Conservation HandlingOnlyWhileRunning HookOrder CallSound RegistrySound SupervisionSound GroupExactlyOne GroupLockSound
+INVARIANTS TypeOK SerialFifo Conservation HandlingOnlyWhileRunning HookOrder CallSound RegistrySound FailedStartFreesName SupervisionSound GroupExactlyOne GroupLockSound GroupTriesEachOnce
 PROPERTIES CallReturnsOrStuck AllHandledUnlessStopped StopCompletes
